@@ -12,6 +12,13 @@ REPO = os.environ['VERIF_REPO']
 VERIF = os.path.dirname(os.path.dirname(os.path.abspath(__file__)))
 
 D = 'pybufrkit/decoder.py'
+Q = 'pybufrkit/query.py'
+MQ = 'pybufrkit/mdquery.py'
+RUN = "                matched = sr.run(bufr_message)\n"
+YIELD = "            if matched:\n                yield bufr_message\n"
+QRET = "            return self.metadata_querent.query(bufr_message, query_expr)\n"
+SECSEL = ("        sections = [s for s in bufr_message.sections\n"
+          "                    if s.get_metadata('index') == section_index or section_index is None]\n")
 MUT = {
     'C11': [
         ('advance-len-minus-1', D, "            idx_start += len(bufr_message.serialized_bytes)\n",
@@ -28,6 +35,35 @@ MUT = {
          "        idx_start = s.find(MESSAGE_START_SIGNATURE, idx_start + 1 if idx_start else 0)\n"),
         ('filter-on-full-decode-only-when-info', D, "                if matched and not info_only:\n",
          "                if matched and info_only:\n"),
+        # round 2 (siblings of seeded/C11-3 and seeded/C11-4)
+        ('rejected-advances-4-more', D, YIELD, YIELD + "            else:\n                idx_start += 4\n"),
+        ('rejected-advances-1-more', D, YIELD, YIELD + "            else:\n                idx_start += 1\n"),
+        ('rejected-advances-by-1-only', D, "            idx_start += len(bufr_message.serialized_bytes)\n",
+         "            idx_start += len(bufr_message.serialized_bytes) if matched else 1\n"),
+        ('rejected-info-only-advances-by-decoded-span', D,
+         "            if info_only:\n                bufr_message.serialized_bytes = s[idx_start: idx_start + bufr_message.length.value]\n",
+         "            if info_only and matched:\n                bufr_message.serialized_bytes = s[idx_start: idx_start + bufr_message.length.value]\n            elif info_only:\n                pass\n"),
+        ('filter-on-previous-message', D, RUN,
+         "                matched = sr.run(getattr(sr, '_prev', bufr_message))\n                sr._prev = bufr_message\n"),
+        ('filter-result-cached-per-scan', D, RUN,
+         "                matched = sr.__dict__.setdefault('_first', sr.run(bufr_message))\n"),
+        ('filter-result-cached-per-expression', D, RUN,
+         "                matched = generate_bufr_message.__dict__.setdefault(filter_expr, sr.run(bufr_message))\n"),
+        ('md-query-falsy-to-none', Q, QRET,
+         "            return self.metadata_querent.query(bufr_message, query_expr) or None\n"),
+        ('md-query-falsy-to-message-attribute', Q, QRET,
+         "            return (self.metadata_querent.query(bufr_message, query_expr) or\n"
+         "                    getattr(getattr(bufr_message, query_expr.strip()[1:], None), 'value', None))\n"),
+        ('md-query-none-test-on-wrong-side', Q, QRET,
+         "            r = self.metadata_querent.query(bufr_message, query_expr)\n"
+         "            d = getattr(getattr(bufr_message, query_expr.strip()[1:], None), 'value', None)\n"
+         "            return d if r is not None else r\n"),
+        ('section-qualified-uses-list-position', MQ, SECSEL,
+         "        sections = [s for i, s in enumerate(bufr_message.sections)\n"
+         "                    if i == section_index or section_index is None]\n"),
+        ('bare-name-last-match-wins', MQ, "        for section in sections:\n            for parameter in section:\n",
+         "        for section in reversed(sections):\n            for parameter in section:\n"),
+        ('section-index-ignored', MQ, SECSEL, "        sections = list(bufr_message.sections)\n"),
         ('split-full-decode-span', 'pybufrkit/commands.py',
          "                                      file_path=filename, info_only=True)):\n            new_filename",
          "                                      file_path=filename, info_only=True)):\n            bufr_message.serialized_bytes = bufr_message.serialized_bytes[:-4] + b'7777'[:3]\n            new_filename"),
